@@ -5,7 +5,7 @@ import ast
 import builtins
 import os
 
-TRANSFORMS = ["unparse_roundtrip", "rename_locals", "swap_if_else", "insert_pass", "return_temp", "elif_to_nested", "insert_logging"]
+TRANSFORMS = ["unparse_roundtrip", "rename_locals", "swap_if_else", "insert_pass", "return_temp", "elif_to_nested", "insert_logging", "len_tests", "swap_independent"]
 
 
 def transforms_for(prop: str):
@@ -49,6 +49,10 @@ def apply(name: str, root: str, prop: str) -> bool:
             _ElifNested().visit(tree)
         elif name == "insert_logging":
             _InsertLogging().visit(tree)
+        elif name == "len_tests":
+            _LenTests().visit(tree)
+        elif name == "swap_independent":
+            _SwapIndependent().visit(tree)
         else:
             return False
         ast.fix_missing_locations(tree)
@@ -218,3 +222,73 @@ class _InsertLogging(ast.NodeTransformer):
 
     visit_FunctionDef = _do
     visit_AsyncFunctionDef = _do
+
+
+
+# ----------------------------------------------------------------------------- emptiness tests written with len()
+_CONTAINERS = {"_waiters", "_tasks", "waiting_receivers", "waiting_senders", "buffer", "_wait_queue", "_borrowers", "read_queue", "_buffer",
+               "idle_workers", "_exceptions", "_child_scopes"}
+
+
+class _LenTests(ast.NodeTransformer):
+    """in boolean context: `not c` -> `len(c) == 0`, `c` -> `len(c) > 0` for the known container attributes"""
+
+    def _is_c(self, e):
+        return isinstance(e, ast.Attribute) and e.attr in _CONTAINERS
+
+    def _len(self, e):
+        return ast.Call(func=ast.Name(id="len", ctx=ast.Load()), args=[e], keywords=[])
+
+    def _cond(self, t):
+        if isinstance(t, ast.BoolOp):
+            t.values = [self._cond(v) for v in t.values]
+            return t
+        if isinstance(t, ast.UnaryOp) and isinstance(t.op, ast.Not):
+            if self._is_c(t.operand):
+                return ast.Compare(left=self._len(t.operand), ops=[ast.Eq()], comparators=[ast.Constant(0)])
+            t.operand = self._cond(t.operand)
+            return t
+        if self._is_c(t):
+            return ast.Compare(left=self._len(t), ops=[ast.Gt()], comparators=[ast.Constant(0)])
+        return t
+
+    def visit_If(self, node):
+        self.generic_visit(node)
+        node.test = self._cond(node.test)
+        return node
+
+    def visit_While(self, node):
+        self.generic_visit(node)
+        node.test = self._cond(node.test)
+        return node
+
+
+# ----------------------------------------------------------------------------- swap adjacent independent constant assignments
+class _SwapIndependent(ast.NodeTransformer):
+    """`self.a = <const>; self.b = <const>` (different targets, constant or plain-name values) are order independent"""
+
+    def _simple(self, s):
+        if isinstance(s, ast.Assign) and len(s.targets) == 1 and isinstance(s.targets[0], (ast.Attribute, ast.Name)) \
+                and isinstance(s.value, (ast.Constant,)):
+            t = s.targets[0]
+            return ast.unparse(t)
+        return None
+
+    def _block(self, stmts):
+        i = 0
+        while i < len(stmts) - 1:
+            a, b = self._simple(stmts[i]), self._simple(stmts[i + 1])
+            if a and b and a != b:
+                stmts[i], stmts[i + 1] = stmts[i + 1], stmts[i]
+                i += 2
+            else:
+                i += 1
+        return stmts
+
+    def generic_visit(self, node):
+        super().generic_visit(node)
+        for fld in ("body", "orelse", "finalbody"):
+            v = getattr(node, fld, None)
+            if isinstance(v, list) and v and isinstance(v[0], ast.stmt):
+                setattr(node, fld, self._block(v))
+        return node
